@@ -10,6 +10,8 @@ CONSTANTS MaxN = 0
           PartSel = 0
           SmallN = 40
           SmallM = 0
+          Small2N = 0
+          Small2M = 0
           SmallW = 5
           SampleMod = 1
           Salt = 0
